@@ -86,15 +86,18 @@ def _control_conds(fu, block):
 	ex = Expr(fu)
 	out = []
 	back = fu.reach_back([block])
+	heads = loop_heads(fu)
 	for bi in sorted(back):
 		t = fu.blocks[bi]['t']
 		if t[1] != 'switch':
 			continue
 		succs = fu.succ(bi)
-		reach = [s for s in succs if s in back or s == block]
 		# does some successor avoid the block entirely?
-		# (without passing the switch again: confines the question to one loop iteration)
-		avoid = [s for s in succs if block not in fu.reach([s], removed_blocks=[bi])]
+		# confine the question to one loop iteration: do not pass this switch again, nor the head of a loop
+		# that contains it
+		cut = {bi} | {h for h in heads if bi in fu.reach([h]) and h in fu.reach([bi])}
+		avoid = [s for s in succs if block not in fu.reach([s], removed_blocks=cut)]
+		reach = [s for s in succs if block in fu.reach([s], removed_blocks=cut)]
 		if reach and avoid:
 			e = ex.of_operand(t[2])
 			out.append((bi, leaf_key(e) if e[0] != 'disc' else 'disc:' + leaf_key(e[1]), fu.line_of(bi)))
